@@ -5,6 +5,8 @@ import (
 	"go/types"
 	"sort"
 	"strings"
+
+	"golang.org/x/tools/go/ssa"
 )
 
 // Comp is one SMT component of a Go value shape.
@@ -191,9 +193,11 @@ type State struct {
 	Shapes  map[string]*shape
 	Writes    []*writeRec
 	CutEpoch  int
-	FreshObjs map[*Term]bool
+	FreshObjs map[*Term]int // objects allocated in this activation -> section epoch of the allocation (+1)
 	G         *Term // guard of the node being executed
 	noRecord  int
+	PrevCutGuard *Term
+	PrevCutBlock *ssa.BasicBlock
 	PrevCut *State // state right after the previous section cut (nil: function entry)
 	Havoc   map[string]int // heap component prefixes havocked before materialisation -> epoch
 }
@@ -205,7 +209,7 @@ type deferred struct {
 
 func NewState() *State {
 	return &State{Heap: map[string]*Term{}, Cells: map[string]Value{}, CellTy: map[string]types.Type{}, Vars: map[string]Value{},
-		Written: map[string][]*Term{}, Ghost: map[string]*Term{}, Locks: map[string]bool{}, Havoc: map[string]int{}, Shapes: map[string]*shape{}, FreshObjs: map[*Term]bool{}}
+		Written: map[string][]*Term{}, Ghost: map[string]*Term{}, Locks: map[string]bool{}, Havoc: map[string]int{}, Shapes: map[string]*shape{}, FreshObjs: map[*Term]int{}}
 }
 
 func (s *State) Clone() *State {
@@ -240,11 +244,13 @@ func (s *State) Clone() *State {
 	n.Defers = append([]deferred{}, s.Defers...)
 	n.Next = s.Next
 	n.PrevCut = s.PrevCut
+	n.PrevCutGuard = s.PrevCutGuard
+	n.PrevCutBlock = s.PrevCutBlock
 	n.Writes = append([]*writeRec{}, s.Writes...)
 	n.CutEpoch = s.CutEpoch
 	n.G = s.G
-	for k := range s.FreshObjs {
-		n.FreshObjs[k] = true
+	for k, v := range s.FreshObjs {
+		n.FreshObjs[k] = v
 	}
 	return n
 }
